@@ -107,11 +107,11 @@ func (server *Server) Start() error {
 	}
 
 	if server.IsPortEnabled() {
-		go server.serve()
+		go server.serveListener(server.portListener)
 	}
 
 	if server.IsTLSPortEnabled() {
-		go server.tlsServe()
+		go server.tlsServeListener(server.tlsPortListener, server.tlsConfig)
 	}
 
 	return nil
@@ -206,9 +206,19 @@ func (server *Server) close() error {
 
 // serve handles client connections.
 func (server *Server) serve() error {
-	defer server.close()
+	return server.serveListener(server.portListener)
+}
 
-	l := server.portListener
+// serveListener handles client connections of the specified listener.
+func (server *Server) serveListener(l net.Listener) error {
+	// Closes only the listener this loop was started with. The server may
+	// already have been restarted with new listeners when this loop ends.
+	defer func() {
+		if l != nil {
+			l.Close()
+		}
+	}()
+
 	for {
 		if l == nil {
 			break
@@ -226,8 +236,19 @@ func (server *Server) serve() error {
 
 // tlsServe handles client connections with TLS.
 func (server *Server) tlsServe() error {
-	defer server.close()
-	l := server.tlsPortListener
+	return server.tlsServeListener(server.tlsPortListener, server.tlsConfig)
+}
+
+// tlsServeListener handles client connections of the specified listener with TLS.
+func (server *Server) tlsServeListener(l net.Listener, tlsConfig *tls.Config) error {
+	// Closes only the listener this loop was started with. The server may
+	// already have been restarted with new listeners when this loop ends.
+	defer func() {
+		if l != nil {
+			l.Close()
+		}
+	}()
+
 	for {
 		if l == nil {
 			break
@@ -237,7 +258,7 @@ func (server *Server) tlsServe() error {
 			return err
 		}
 
-		tlsConn := tls.Server(conn, server.tlsConfig)
+		tlsConn := tls.Server(conn, tlsConfig)
 		if err := tlsConn.Handshake(); err != nil {
 			return err
 		}
